@@ -91,6 +91,19 @@ def e2e_one(chk, sseed):
             w.sb.write_config(w.lines, w.settings)
         for cs in repo["codenames"].values():
             cs["serve_by_hash"] = True  # by-hash objects exist upstream even if the Release does not announce them
+        # InRelease and Release may list different checksum sections for the same indices (one of them a proper subset, or
+        # overlapping ones): what both say agrees, so the pair is valid, and every listed hash gets its by-hash name
+        r4 = random.Random(sseed + "-algos")
+        for cs in repo["codenames"].values():
+            if {"InRelease", "Release"} <= set(cs.get("flavours", ["InRelease", "Release"])) and len(cs["algos"]) >= 2 and r4.random() < 0.5:
+                sub = r4.sample(cs["algos"], r4.randint(1, len(cs["algos"]) - 1))
+                which = r4.choice(["InRelease", "Release", "both"])
+                if which == "both":
+                    other = [a for a in cs["algos"] if a not in sub] + sub[:1]
+                    cs["flavour_algos"] = {"InRelease": sub, "Release": other}
+                else:
+                    cs["flavour_algos"] = {which: sub}
+                chk.count("codenames_whose_release_files_list_different_checksum_sections")
         store = w.stores()[url]
         if common.has_s3(repo, w.cfgs[url], store):
             chk.evaluated(None)
@@ -149,9 +162,13 @@ def e2e_one(chk, sseed):
                     chk.violation("byhash-not-used", replay, f"{cn}: every index is available under by-hash but exit {res.exit}")
                 if res.exit == 0:
                     # layout: every published index listed in the Release: canonical + by-hash/<algo>/<hash> for every listed hash, one inode
-                    relp = next((os.path.join(ddir, n) for n in ("InRelease", "Release") if os.path.exists(os.path.join(ddir, n))), None)
-                    if relp:
-                        fields, entries = fsckmod.parse_release(open(relp, encoding="utf-8").read())
+                    relps = [os.path.join(ddir, n) for n in ("InRelease", "Release") if os.path.exists(os.path.join(ddir, n))]
+                    entries = []
+                    for relp in relps:   # every hash that either published release file lists
+                        for e in fsckmod.parse_release(open(relp, encoding="utf-8").read())[1]:
+                            if e not in entries:
+                                entries.append(e)
+                    if relps:
                         for algo, h, size, name in entries:
                             canon = os.path.join(ddir, name)
                             if not os.path.isfile(canon) or os.path.getsize(canon) != size or name in fsckmod.RELEASE_NAMES:
